@@ -266,15 +266,16 @@ fn check(prop: &Property, tier: Tier) -> i32 {
     let mut nontrivial: BTreeSet<u64> = BTreeSet::new();
     let mut classes: BTreeMap<String, u64> = BTreeMap::new();
     let mut samples: Vec<Value> = Vec::new();
-    let mut per_part: BTreeMap<String, (u64, BTreeSet<u64>, bool)> = BTreeMap::new();
+    let mut per_part: BTreeMap<String, (u64, BTreeSet<u64>, bool, bool)> = BTreeMap::new();
     let mut known_lines: BTreeSet<String> = BTreeSet::new();
     let mut notes: BTreeSet<String> = BTreeSet::new();
     for r in &results {
         for p in &r.parts {
             evaluations += p.evaluations;
-            let e = per_part.entry(p.part.clone()).or_insert((0, BTreeSet::new(), true));
+            let e = per_part.entry(p.part.clone()).or_insert((0, BTreeSet::new(), true, false));
             e.0 += p.evaluations;
             e.2 &= p.exhaustive;
+            e.3 |= p.supplementary;
             for k in &p.nontrivial {
                 e.1.insert(*k);
                 nontrivial.insert(hash64((&p.part, *k)));
@@ -317,8 +318,8 @@ fn check(prop: &Property, tier: Tier) -> i32 {
         }
     }
 
-    let exhaustive_all = !per_part.is_empty() && per_part.values().all(|p| p.2);
-    let parts_json: BTreeMap<String, Value> = per_part.iter().map(|(k, v)| (k.clone(), json!({"evaluations": v.0, "distinct_nontrivial": v.1.len(), "exhaustive": v.2}))).collect();
+    let exhaustive_all = !per_part.is_empty() && per_part.values().all(|p| p.2 || p.3) && per_part.values().any(|p| p.2);
+    let parts_json: BTreeMap<String, Value> = per_part.iter().map(|(k, v)| (k.clone(), json!({"evaluations": v.0, "distinct_nontrivial": v.1.len(), "exhaustive": v.2, "supplementary_sampling": v.3}))).collect();
     let wall = t0.elapsed().as_secs_f64();
     let evidence = json!({
         "property_id": prop.id,
